@@ -38,7 +38,7 @@ from harness.common import Ctx, lean_stage, thorough_rebuild
 from harness.translate import status as tr
 
 THEOREMS = [
-    "mem_and_match_eq_sql_joins", "existingMem_eq_existing", "page_mem_eq_sql", "page_negative_diverges", "page_is_sorted_slice_of_candidates",
+    "mem_and_match_eq_sql_joins", "existingMem_eq_existing", "page_mem_eq_sql", "page_all_integers_agree", "page_negative_diverged_before_repair", "page_is_sorted_slice_of_candidates",
     "count_eq_length_all", "filter_by_status_spec", "mem_filter_by_status_eq_sql", "history_mem_eq_sql_of_distinct_instants",
     "history_same_instant_diverges", "purge_resets_every_component", "purged_answers_like_fresh", "retries_monotone", "auto_purge_spec",
     "family_algorithms_agree", "observations_deterministic",
